@@ -20,11 +20,14 @@ T == TraceLog[l]
 \* repo-level requests are DvidDAG's actions; the data is untouched
 Dag(A) == A /\ UNCHANGED ent
 
-TNewRepo == IsEvent("newrepo") /\ Dag(NewRepo_Ok("auto"))
+\* the number the driver gives a created node is the position of its UUID among the UUIDs seen so far: a server that
+\* hands out a UUID twice produces a number that is not nn + 1
+NewIs == T.new = nn + 1
+TNewRepo == IsEvent("newrepo") /\ NewIs /\ Dag(NewRepo_Ok("auto"))
 TCommit == IsEvent("commit") /\ Dag(IF T.ok THEN Commit_Ok(T.node) ELSE Commit_Rej(T.node))
-TNewVersion == IsEvent("newversion") /\ Dag(IF T.ok THEN NewVersion_Ok(T.node, "auto") ELSE NewVersion_Rej(T.node, "auto"))
-TBranch == IsEvent("branch") /\ Dag(IF T.ok THEN Branch_Ok(T.node, T.branch, "auto") ELSE Branch_Rej(T.node, T.branch, "auto"))
-TMerge == IsEvent("merge") /\ Dag(IF T.ok THEN Merge_Ok(T.parents) ELSE Merge_Rej(T.parents))
+TNewVersion == IsEvent("newversion") /\ Dag(IF T.ok THEN NewIs /\ NewVersion_Ok(T.node, "auto") ELSE NewVersion_Rej(T.node, "auto"))
+TBranch == IsEvent("branch") /\ Dag(IF T.ok THEN NewIs /\ Branch_Ok(T.node, T.branch, "auto") ELSE Branch_Rej(T.node, T.branch, "auto"))
+TMerge == IsEvent("merge") /\ Dag(IF T.ok THEN NewIs /\ Merge_Ok(T.parents) ELSE Merge_Rej(T.parents))
 TPut == IsEvent("put") /\ (IF T.ok THEN Put_Ok(T.node, T.key, T.val) ELSE Write_Rej(T.node))
 TDel == IsEvent("del") /\ (IF T.ok THEN Del_Ok(T.node, T.key) ELSE Write_Rej(T.node))
 TGet == IsEvent("get") /\ (Get(T.node, T.key, T.res) \/ Dev_InnerMergeConflict(T.node, T.key, T.res))
